@@ -4,6 +4,6 @@
 export GOFLAGS=-mod=mod GOPROXY=off GOSUMDB=off GOTOOLCHAIN=local
 P=$1; K=$2; shift; shift; R=${SEEDROUND:-}; WT=/tmp/seed$R-$P; D=/tmp/seedwork$R-$P/$K
 git -C $WT checkout -q -- . ; git -C $WT apply $D/patch.diff || { echo "$P/$K patch does not apply"; exit 1; }
-(cd /repo && git ls-files "*contracts_verif.go" | while read f; do cp /repo/$f $WT/$f; done)
-for c in "$@"; do (cd /verif && GOVC_REPO=$WT ./bin/govc check -property $c -tier quick 2>&1 | grep -E "VIOLATION|BROKEN|quick:" | cut -c1-330 | sed "s|^|$P/$K [$c] |"); done
+CF=${CONTRACTS_FROM:-/repo}; (cd $CF && git ls-files "*contracts_verif.go" | while read f; do cp $CF/$f $WT/$f; done)
+for c in "$@"; do (cd /verif && GOVC_REPO=$WT ${GOVC_BIN:-./bin/govc} check -property $c -tier quick 2>&1 | grep -E "VIOLATION|BROKEN|quick:" | cut -c1-330 | sed "s|^|$P/$K [$c] |"); done
 git -C $WT checkout -q -- .
